@@ -224,6 +224,8 @@ def likeToRegexGo : List Nat → (inList : Bool) → (esc : Bool) → (out : Lis
     let next : Bool := !esc && c == 92
     if inList then
       if c = 93 ∧ esc = false then likeToRegexGo rest false next (c :: out)
+      else if esc then
+        likeToRegexGo rest true next (if regexEscapes c then c :: 92 :: out.tail else c :: out.tail)
       else if isRegexMeta c then likeToRegexGo rest true next (c :: 92 :: out)
       else likeToRegexGo rest true next (c :: out)
     else if esc then
@@ -300,7 +302,10 @@ def escapable (c : Nat) : Bool :=
 
 /-- one class atom: `\c` or a plain character (not `]`, `[`) -/
 def classAtom : List Nat → Option (Option (Nat × List Nat))   -- none = unsupported; some none = no atom
-  | 92 :: c :: rest => if escapable c then some (some (c, rest)) else none
+  | 92 :: c :: rest =>
+    if escapable c then some (some (c, rest))
+    else if c = 97 then some (some (7, rest))      -- `\a` is the bell character
+    else none
   | [92] => none
   | 91 :: _ => none
   | c :: rest => some (some (c, rest))
@@ -311,6 +316,18 @@ def parseClassItems : Nat → List Nat → List (Nat × Nat) → Option (Option 
   | 0, _, _ => none
   | _ + 1, [], _ => some none                       -- unclosed
   | _ + 1, 93 :: rest, acc => some (some (acc.reverse, rest))
+  | fuel + 1, 91 :: rest, acc =>
+    -- a nested class `[..]` inside a class is the union with it (a negated one is not modelled)
+    match rest with
+    | 94 :: _ => none
+    | _ =>
+      let (acc0, rest0) := match rest with
+        | 93 :: r => ([((93 : Nat), (93 : Nat))], r)
+        | r => ([], r)
+      match parseClassItems fuel rest0 acc0 with
+      | some (some (rs, rest')) =>
+        if rs.isEmpty then some none else parseClassItems fuel rest' (rs.reverse ++ acc)
+      | other => other
   | fuel + 1, cs, acc =>
     match classAtom cs with
     | none => none
@@ -318,6 +335,7 @@ def parseClassItems : Nat → List Nat → List (Nat × Nat) → Option (Option 
     | some (some (lo, rest)) =>
       match rest with
       | 45 :: 93 :: _ => parseClassItems fuel rest ((lo, lo) :: acc)     -- `a-]`: literal a, then `-`
+      | 45 :: 45 :: _ => none                                            -- `--`: set difference, not modelled
       | 45 :: rest2 =>
         match classAtom rest2 with
         | none => none
@@ -334,7 +352,7 @@ def parseClass (cs : List Nat) : Option (Option (Atom × List Nat)) :=
   let (acc, cs) := match cs with
     | 93 :: r => ([((93 : Nat), (93 : Nat))], r)
     | r => ([], r)
-  match parseClassItems (cs.length + 2) cs acc with
+  match parseClassItems (2 * cs.length + 4) cs acc with
   | none => none
   | some none => some none
   | some (some (rs, rest)) => if rs.isEmpty then some none else some (some (.cls neg rs, rest))
